@@ -14,6 +14,12 @@ modes
           the parent sees the real process exit status.  CtrlC cases: the test command
           reports through a FIFO that it is at the phase, the parent delivers a real SIGINT.
 
+Contended lock file (contended_case): a separate process holds the lock file of the run (flock AND a POSIX record
+lock) when entry_point() starts, so that the run has to wait for it.  Either the holder lets go after a while and the
+run goes on as the case says (option "lockheld": seconds), or the run is interrupted WHILE it waits (case point
+"LockWait": real SIGINT -- from the parent in cli mode, from a thread of this process otherwise -- or cancellation
+of the task that runs entry_point(), option "intr": "cancel").
+
 The observation is a plain measurement of files / flock / sqlite rows / hook output;
 nothing in here judges the property (TLC does, see spec/Trace_RunLifecycle.tla).
 """
@@ -28,7 +34,9 @@ import logging
 import os
 import signal
 import sqlite3
+import subprocess
 import sys
+import threading
 import time
 from datetime import datetime
 from pathlib import Path
@@ -52,12 +60,18 @@ class Capture(logging.Handler):
     def __init__(self) -> None:
         super().__init__(level=1)
         self.records: list[tuple[int, str]] = []
+        self.times: list[float] = []  # CLOCK_MONOTONIC of records[i]
 
     def emit(self, record: logging.LogRecord) -> None:
+        self.times.append(time.monotonic())
         try:
             self.records.append((record.levelno, record.getMessage()))
         except Exception:  # noqa: BLE001
             self.records.append((record.levelno, str(record.msg)))
+
+    def clear(self) -> None:
+        self.records.clear()
+        self.times.clear()
 
 
 def setup_logging() -> Capture:
@@ -107,7 +121,7 @@ def build(case: dict[str, Any], d: Path, job: dict[str, Any]) -> Any:
         else:
             db = d / "db" / "db.sqlite"
     inj: dict[str, Any] = {}
-    if c["how"] != "Return":
+    if c["how"] != "Return" and c["point"] != "LockWait":  # (an interrupted waiter: nothing to do for the command)
         inj = {"point": c["point"], "how": c["how"], "n": c["n"], "where": c["where"]}
         if c["how"] == "CtrlC":
             inj["sync"] = case["sync"]
@@ -239,7 +253,7 @@ def same_config(a: Any, b: Any) -> bool:
 
 def observe(case: dict[str, Any], d: Path, cmd: Any, status: tuple[str, Any], cap: Capture, *,
             run_dirs: list[Path] | None = None, script: str | None = None, min_row: int = 0,
-            lock: Path | None = None, hooklog: Path | None = None) -> dict[str, Any]:
+            lock: Path | None = None, hooklog: Path | None = None, lock_free: bool | None = None) -> dict[str, Any]:
     """The final state of ONE run, read back from outside.  By default the run owns the scratch directory `d`; runs
     that share it (and the database) with other runs name their own artifacts directories (`run_dirs`), their
     run_meta row (`script`: the last row of that command with id > `min_row`), lock file and hook log."""
@@ -283,6 +297,12 @@ def observe(case: dict[str, Any], d: Path, cmd: Any, status: tuple[str, Any], ca
         except (OSError, ValueError):
             meta["present"] = False
     o["meta"] = meta
+    # an artifacts directory of this run exists at all
+    if run_dirs is None:
+        rds = [r for r in (d / "art").glob("*/run-*") if r.is_dir()] if c["art"] else []
+    else:
+        rds = [r for r in run_dirs if r.is_dir()] if c["art"] else []
+    o["rundir"] = bool(rds)
     # log.json.zst
     if run_dirs is None:
         logs = sorted((d / "art").glob("*/run-*/log.json.zst")) if c["art"] else []
@@ -291,7 +311,10 @@ def observe(case: dict[str, Any], d: Path, cmd: Any, status: tuple[str, Any], ca
     lg = read_log(logs[-1]) if logs else {"present": False, "complete": False, "parsedAll": False, "markers": []}
     o["log"] = {k: lg[k] for k in ("present", "complete", "parsedAll", "markers")}
     # flock
-    o["lockFree"] = probe_lock(lock if lock is not None else d / "lock") if c["lock"] else True
+    if lock_free is not None:  # measured around the release of the process that held the lock (contended_case)
+        o["lockFree"] = lock_free
+    else:
+        o["lockFree"] = probe_lock(lock if lock is not None else d / "lock") if c["lock"] else True
     # run_meta row
     db = {"present": False, "hasEnd": False, "exit": -1}
     dbp = cmd.config.db
@@ -333,7 +356,7 @@ def observe(case: dict[str, Any], d: Path, cmd: Any, status: tuple[str, Any], ca
     raw = o.setdefault("_raw", {})
     raw.update(status=[kind, repr(val)], db_rows=nrows, log_lines=lg.get("lines"), log_error=lg.get("error"),
                hooks_other=len(hk) - len(pre) - len(post), n_records=len(cap.records),
-               hook_art_ok=all((h.get("ART", "") != "None") == bool(c["art"]) for h in hk))
+               hook_art_ok=all((h.get("ART", "") != "None") == bool(c["art"]) for h in hk), run_dirs=len(rds))
     return o
 
 
@@ -435,13 +458,174 @@ def run_entry_point(cmd: Any) -> tuple[str, Any]:
         return (type(e).__name__, e)
 
 
+# --------------------------------------------------------------------------- a lock file held by somebody else
+HOLDER_SRC = r"""
+import fcntl, os, sys
+fd = os.open(sys.argv[1], os.O_RDWR | os.O_CREAT, 0o644)
+fcntl.flock(fd, fcntl.LOCK_EX)       # what gallia's FlockMixin contends with
+fcntl.lockf(fd, fcntl.LOCK_EX)       # ... and an implementation with POSIX record locks would
+sys.stdout.write("held\n")
+sys.stdout.flush()
+sys.stdin.read()                     # until the driver closes the pipe (or is gone)
+"""
+SETTLE_S = 1.0     # no sign of waiting in the log after this long: the run counts as waiting (it cannot have the lock)
+FALLBACK_S = 6.0   # an interrupted waiter that has not ended after this long gets the lock (and is not judged)
+
+
+class Holder:
+    """Another process that holds the lock file (the `other run`)."""
+
+    def __init__(self, path: Path) -> None:
+        self.path = path
+        self.p = subprocess.Popen([sys.executable, "-S", "-E", "-c", HOLDER_SRC, str(path)], stdin=subprocess.PIPE,
+                                  stdout=subprocess.PIPE, stderr=subprocess.DEVNULL)
+        assert self.p.stdout is not None
+        if self.p.stdout.readline().strip() != b"held":
+            self.p.kill()
+            raise SystemExit(f"lock holder process did not get {path}")
+        self.ino = os.stat(path).st_ino
+        self.mtx = threading.Lock()
+        self.released = False
+
+    def intact(self) -> bool:
+        """The holder still has its lock: alive, the path still names the file it locked, the file is locked."""
+        try:
+            same = os.stat(self.path).st_ino == self.ino
+        except OSError:
+            same = False
+        return (not self.released) and self.p.poll() is None and same and not probe_lock(self.path)
+
+    def release(self) -> None:
+        with self.mtx:
+            if self.released:
+                return
+            self.released = True
+            try:
+                assert self.p.stdin is not None
+                self.p.stdin.close()
+                self.p.wait(timeout=20)
+            except Exception:  # noqa: BLE001
+                self.p.kill()
+                self.p.wait()
+            assert self.p.stdout is not None
+            self.p.stdout.close()
+
+
+def contended_case(case: dict[str, Any], d: Path, cmd: Any, cap: Capture) -> tuple[dict[str, Any], tuple[str, Any]]:
+    """The run's lock file is held by another process when entry_point() starts.
+
+    A watcher thread decides when the run is `waiting`: a log record that mentions waiting has been seen (only a
+    hint that saves time), or SETTLE_S have passed -- the run cannot have got the lock either way.  `wait_s` later the
+    environment acts: the holder releases (the run goes on as the case says), or the run is interrupted (case point
+    LockWait); the holder of an interrupted waiter keeps the lock until the run has ended."""
+    from harness.c15_cmds import MARKER
+
+    c = case["c"]
+    waiter = c["point"] == "LockWait"
+    wait_s = float(case.get("lockheld") or 0.2)
+    how = "fifo" if case.get("sync") and waiter else (case.get("intr") or "sigint")
+    holder = Holder(d / "lock")
+    st: dict[str, Any] = {"done": False, "acted": None, "hint": False, "fallback": False}
+    box: dict[str, Any] = {}
+    mtx = threading.Lock()
+
+    def fifo(msg: bytes) -> None:
+        fd = os.open(case["sync"], os.O_WRONLY)
+        os.write(fd, msg)
+        os.close(fd)
+
+    def watch() -> None:
+        t0 = time.monotonic()
+        hint_at = None
+        while True:
+            now = time.monotonic()
+            if st["done"]:
+                return
+            if hint_at is None and any("wait" in m.lower() for _, m in list(cap.records)):
+                hint_at = now
+            if (hint_at is not None and now - hint_at >= wait_s) or now - t0 >= SETTLE_S + wait_s:
+                break
+            time.sleep(0.005)
+        st["hint"] = hint_at is not None
+        if not waiter:
+            st["acted"] = time.monotonic()
+            holder.release()
+            return
+        with mtx:
+            if st["done"]:
+                return
+            st["acted"] = time.monotonic()
+            if how == "fifo":
+                fifo(b"ready\n")        # the parent process sends the SIGINT
+            elif how == "cancel":
+                try:
+                    box["loop"].call_soon_threadsafe(box["task"].cancel)
+                except (KeyError, RuntimeError):  # the run is over (loop closed): nobody was interrupted
+                    st["acted"] = None
+                    return
+            else:
+                os.kill(os.getpid(), signal.SIGINT)
+        t1 = time.monotonic()
+        while time.monotonic() - t1 < FALLBACK_S:
+            if st["done"]:
+                return
+            time.sleep(0.02)
+        st["fallback"] = True
+        holder.release()
+
+    async def go() -> Any:
+        box["loop"] = asyncio.get_running_loop()
+        box["task"] = asyncio.current_task()
+        return await cmd.entry_point()
+
+    prev = signal.signal(signal.SIGINT, signal.default_int_handler) if how == "sigint" and waiter else None
+    th = threading.Thread(target=watch, daemon=True)
+    try:
+        th.start()
+        try:
+            status: tuple[str, Any] = ("return", asyncio.run(go()))
+        except SystemExit as e:
+            status = ("SystemExit", e.code)
+        except BaseException as e:  # noqa: BLE001
+            status = (type(e).__name__, e)
+        with mtx:
+            st["done"] = True
+        th.join()
+    finally:
+        if prev is not None:
+            signal.signal(signal.SIGINT, prev)
+    lock_free = None
+    if waiter:
+        if st["acted"] is None:
+            if how == "fifo":
+                fifo(b"skip\n")   # the run has ended without having waited: no SIGINT, please
+        elif not st["fallback"]:
+            # the lock belongs to the other run: still in place now, and free once that run lets go
+            intact = holder.intact()
+            holder.release()
+            lock_free = intact and probe_lock(d / "lock")
+    holder.release()
+    o = observe(case, d, cmd, status, cap, lock_free=lock_free)
+    first = next((t for (_, m), t in zip(list(cap.records), list(cap.times)) if m.startswith(MARKER)), None)
+    o["_raw"].update(lock_contended=True, wait_hint_seen=st["hint"], wait_s=wait_s, interrupt=how if waiter else None,
+                     did_not_wait=waiter and st["acted"] is None, fallback_release=st["fallback"],
+                     # (proceeding runs) the first phase of the command was entered after the holder had let go
+                     entered_after_release=(None if waiter or first is None or st["acted"] is None
+                                            else first >= st["acted"]))
+    return o, status
+
+
 def one_case(case: dict[str, Any], job: dict[str, Any], cap: Capture) -> tuple[dict[str, Any], tuple[str, Any]]:
     from harness import c15_cmds
 
     d = Path(job["root"]) / f"case-{case['id']}"
     c15_cmds.PHASES.clear()
-    cap.records.clear()
+    cap.clear()
     cmd = build(case, d, job)
+    if case["c"]["lock"] and (case["c"]["point"] == "LockWait" or case.get("lockheld")):
+        o, status = contended_case(case, d, cmd, cap)
+        cleanup(cmd)
+        return o, status
     if case.get("dbglitch"):
         arm_db_glitch(int(case["dbglitch"]))
         arm_hang_watchdog(25.0)
@@ -612,7 +796,7 @@ def stock_case(case: dict[str, Any], job: dict[str, Any], cap: Capture) -> dict[
         else:
             raise SystemExit(f"unknown stock command {sc['cmd']}")
         c15_cmds.PHASES.clear()
-        cap.records.clear()
+        cap.clear()
         end = watch_run(cmd)
         try:
             status = run_entry_point(cmd)
